@@ -5,7 +5,9 @@ open A2l.Lim
 #print axioms linear_range
 #print axioms ratfunc_linear_range
 #print axioms error_iff
-#print axioms error_iff_strict
+#print axioms typedef_measurement_same_decision
+#print axioms strict_implies_tolerant
+#print axioms tolerant_not_strict
 #print axioms inside_no_error
 #print axioms outside_error
 #print axioms not_evaluated_never_errors
